@@ -432,6 +432,108 @@ theorem parse_print_query (url : Bytes) (u : Parts) (q : Bytes) (hp : parse url 
   simp only [queryWith] at this
   rw [this, ← hq]
 
+/-- A valid path with nothing after it parses to that path and no query. -/
+theorem parsePQ_build_nq (P : Bytes) (hP : P.all pathChar = true) : parsePQ P = some ⟨P, none⟩ := by
+  have hPall : ∀ x ∈ P, pathChar x = true := by simpa using hP
+  have h1 : P.takeWhile (fun b => b ≠ 63 && b ≠ 35) = P :=
+    takeWhile_all _ P (fun x hx => pathChar_not_stop x (hPall x hx))
+  unfold parsePQ
+  rw [h1]
+  simp [hP, parseQueryPart]
+
+theorem parseAfterScheme_build_nq (sch : Scheme) (A t : Bytes)
+    (hA : ∀ b ∈ A, isDelim b = false) (hok : authorityOk A = true) (hne : A ≠ [])
+    (hP : (47 :: t : Bytes).all pathChar = true) :
+    parseAfterScheme sch (A ++ 47 :: t) = .ok ⟨some sch, A, 47 :: t, none⟩ := by
+  have htw : (A ++ 47 :: t).takeWhile (fun b => !isDelim b) = A :=
+    takeWhile_append_stop _ A 47 _ (fun x hx => by simp [hA x hx]) (by decide)
+  unfold parseAfterScheme
+  rw [htw, List.drop_left, parsePQ_build_nq (47 :: t) hP]
+  simp [hok, hne]
+
+/-- Absolute form: after a well-formed scheme and "://", `parse` is `parseAfterScheme`. -/
+theorem parse_abs (sch : Scheme) (rest : Bytes) (hr : rest ≠ [])
+    (hs : ∀ sc, sch = .other sc → OtherScheme sc)
+    (hlen : (schemeText sch ++ 58 :: 47 :: 47 :: rest).length ≤ 65534) :
+    parse (schemeText sch ++ 58 :: 47 :: 47 :: rest) = parseAfterScheme sch rest := by
+  have key : ∀ S : Bytes, S.length ≤ 65534 → S.head? ≠ some 47 → S ≠ [42] → S ≠ [] →
+      splitScheme S = .ok (some sch, rest) → parse S = parseAfterScheme sch rest := by
+    intro S h1 h2 h3 h4 h5
+    unfold parse
+    rw [if_neg h4, if_neg (by omega), if_neg h3, if_neg h2]
+    unfold parseAbs
+    rw [h5]
+  cases sch with
+  | http =>
+    apply key _ hlen <;> try (simp [schemeText])
+    exact splitScheme_http rest
+  | https =>
+    apply key _ hlen <;> try (simp [schemeText])
+    exact splitScheme_https rest
+  | other sc =>
+    have hos := hs sc rfl
+    apply key _ hlen
+    · simp only [schemeText]
+      cases sc with
+      | nil => simp
+      | cons b r => have := schemeChar_ne b (hos.chars b (by simp)); simp [this.2.1]
+    · simp only [schemeText]
+      cases sc with
+      | nil => simp
+      | cons b r => simp
+    · simp [schemeText]
+    · exact splitScheme_other sc rest hos hr
+
+/-- **parse_print.** `Display` then `from_str` is the identity on every parsed URL (an empty path
+read as "/"), with or without a query. -/
+theorem parse_print (url : Bytes) (u : Parts) (hp : parse url = .ok u) (hlen : (print u).length ≤ 65534) :
+    parse (print u) = .ok { u with path := pathOrSlash u.path } := by
+  cases hq : u.query with
+  | some q => rw [← hq]; exact parse_print_query url u q hp hq hlen
+  | none =>
+    have hu := parse_wf url u hp
+    have hP' : (pathOrSlash u.path).all pathChar = true := by
+      unfold pathOrSlash; split
+      · decide
+      · exact hu.path_chars
+    have hP'head : ∃ t, pathOrSlash u.path = 47 :: t := by
+      unfold pathOrSlash
+      split
+      · exact ⟨[], rfl⟩
+      · rename_i hne
+        rcases hu.path_start with h | h
+        · exact absurd h hne
+        · cases hpth : u.path with
+          | nil => exact absurd hpth hne
+          | cons b t => rw [hpth] at h; simp at h; exact ⟨t, by rw [h]⟩
+    obtain ⟨t, ht⟩ := hP'head
+    have hpr : print u = schemePrefix u.scheme ++ (u.authority ++ 47 :: t) := by
+      simp [print, querySuffix, hq, ht, List.append_assoc]
+    rw [hpr] at hlen ⊢
+    rw [ht] at hP' ⊢
+    cases hsc : u.scheme with
+    | none =>
+      obtain ⟨ha, _⟩ := hu.origin hsc
+      rw [hsc] at hlen
+      rw [ha] at hlen ⊢
+      simp only [schemePrefix, List.nil_append] at hlen ⊢
+      unfold parse
+      have e1 : ¬ ((47 :: t : Bytes) = []) := by simp
+      have e2 : ¬ (47 :: t : Bytes).length > 65534 := by omega
+      have e4 : (47 :: t : Bytes).head? = some 47 := by simp
+      by_cases e3 : (47 :: t : Bytes) = [42]
+      · simp at e3
+      · rw [if_neg e1, if_neg e2, if_neg e3, if_pos e4]
+        unfold parseOrigin
+        rw [parsePQ_build_nq (47 :: t) hP']
+    | some sch =>
+      obtain ⟨hok, hne⟩ := hu.auth_abs (by simp [hsc])
+      rw [hsc] at hlen
+      simp only [schemePrefix, List.append_assoc, List.cons_append, List.nil_append] at hlen ⊢
+      rw [parse_abs sch (u.authority ++ 47 :: t) (by simp)
+        (fun sc h => parse_other_scheme url u sc hp (by rw [hsc, h])) hlen]
+      rw [parseAfterScheme_build_nq sch u.authority t hu.auth_nodelim hok hne hP']
+
 /-! ### Non-vacuity -/
 
 -- "ftp+x" is a generic scheme; "Http" is not
